@@ -4,7 +4,7 @@
    have the same names in the same order and, unless (name, v) is in a recorded defect class of fs,
    g v = Ok (spec (view v)) where view v are the bytes within the length.
    Only statements, each closed by [exact]; proofs in Proofs/Views*.v. *)
-From PV Require Import Model.ViewsShow Spec.Views Proofs.ViewsBase Proofs.Views5 Proofs.Views Proofs.Views2 Proofs.Views3 Proofs.Views4 Proofs.ViewsLen.
+From PV Require Import Model.ViewsShow Spec.Views Proofs.ViewsBase Proofs.Views5 Proofs.Views Proofs.Views2 Proofs.Views3 Proofs.Views4 Proofs.Views6 Proofs.ViewsLen.
 Open Scope N_scope.
 
 Theorem C02_ARP_getters_spec : forall v, wf v -> bytes_ok (arr v) ->
@@ -182,3 +182,14 @@ Print Assumptions C02_Ether_known_exact.
 Theorem C02_Ether_Payload_spec_is : lookup "Payload" Ether_specs = Some (Some Ether_Payload_spec).
 Proof. exact Ether_Payload_spec_is. Qed.
 Print Assumptions C02_Ether_Payload_spec_is.
+
+(* ---- round 2: RS/RA Options() ---- the decoded option block equals the positional option spec
+   (Spec/ViewsNDP.v: each field at its RFC 4861 / 4191 / 8106 bit position inside its option, options folded in
+   order) for every byte string; C02_RS_getters_spec / C02_RA_getters_spec above include Options() through it *)
+Theorem C02_ndp_options_value_spec : forall b, bytes_ok b -> ndp_value b = ndp_spec b.
+Proof. exact ndp_value_spec. Qed.
+Print Assumptions C02_ndp_options_value_spec.
+Theorem C02_ndp_options_getter_spec : forall k v, wf v -> bytes_ok (arr v) ->
+  ndp_options_at k v = Ok (ndp_options_spec k (view v)).
+Proof. exact ndp_options_at_spec. Qed.
+Print Assumptions C02_ndp_options_getter_spec.
